@@ -936,6 +936,25 @@ def gen_c20(rng, tier):
                     lines.append("update " + gen.hexes(gen.elevation(rng, g)))
                 out.append(("q%d" % k, lines))
                 k += 1
+    # beyond the exhaustive part: random sequences of 5-8 operators, with several snapshots whose
+    # names are drawn from a pool of two (a graph snapshot and an elevation snapshot may share a
+    # name: they live in different tables and both are listed as given)
+    for j in range(counts(tier, 60, 1500)):
+        g = grids[j % 3] if j % 5 else gm
+        L = rng.randint(5, 8)
+        seq = [rng.choice(C20_KINDS + ["snap:a:g", "snap:b:e"]) for _ in range(L)]
+        if rng.random() < 0.7:
+            seq[0] = rng.choice(["single", "multi:3ff0000000000000", "snap:b:e", "pflood"])
+        ops = []
+        for o in seq:
+            if o.startswith("snap"):
+                ops.append("snap:%s:%s" % (rng.choice(["s0", "s1"]) if rng.random() < 0.6 else "%s%d" % (o[5], len(ops)), o[-1]))
+            else:
+                ops.append(o)
+        lines = [g.line(), "graph " + " ".join(ops), "update " + gen.hexes(gen.elevation(rng, g, "ints"))]
+        if rng.random() < 0.3:
+            lines.append("update " + gen.hexes(gen.elevation(rng, g)))
+        out.append(("ql%d" % j, lines))
     return out
 
 
@@ -956,7 +975,7 @@ register("C20", gen=gen_c20, runner=c20_runner, oracles=[oracle.c20], nontrivial
          lean_modules=["FsProofs.Properties.ShapesC20", "FsProofs.Properties.C20"],
          theorems=["Fs.Shapes.source_shape_C20", "Fs.OpSeq.accepts_iff", "Fs.OpSeq.effects", "Fs.OpSeq.fold_accepts_iff", "Fs.Driver.flagsOf_generated", "Fs.Driver.generated_table_examples"],
          tags=lambda si: ["accepted" if c20_nontrivial(si) else "refused"] + tags_flow(si)[:1],
-         rule="ALL sequences of length 1..4 over {single, single(2 threads), multi, pflood, mst, graph snapshot, elevation snapshot} (2800), each on a grid (quick: rotating over raster-queen / profile / looped cache-less rook raster / mesh; thorough: on all four), construction + update; non-trivial = accepted sequence",
+         rule="ALL sequences of length 1..4 over {single, single(2 threads), multi, pflood, mst, graph snapshot, elevation snapshot} (2800), each on a grid (quick: rotating over raster-queen / profile / looped cache-less rook raster / mesh; thorough: on all four), construction + update; plus random sequences of 5-8 operators with several snapshots sharing two names; non-trivial = accepted sequence",
          trusted_base=["operator flag table regenerated from the static constexpr members of the operator classes by translate.py", "acceptance logic (add_operator/update_snapshots/constructor checks) modelled by hand as Fs.OpSeq.add/build and pattern-checked by translate.py; tied by exhaustive correspondence over all sequences <= 4"])
 _lvl("C20", "proof",
      "Theorems for operator lists of ANY length and ANY flag table about the function the model executes: accepts_iff (constructible iff every required input direction matches the direction produced before it, every graph snapshot follows a router, and some operator updates the graph and defines a direction), effects (reported direction = last defining operator; single-column iff every defining operator is single; caller's array returned iff no operator edits elevation). Flag table regenerated from the source each run. Correspondence is exhaustive over all 2800 sequences of length <= 4.",
@@ -1328,7 +1347,9 @@ def gen_spl(rng, tier):
         kind = rng.choice(["s", "s", "a"])
         m = rng.choice([0.3, 0.5, 1.0])
         nn = rng.choice([1.0, 1.0, 1.0, 0.5, 0.8, 1.5, 2.0, 4.0]) if not multi else rng.choice([1.0, 1.0, 1.0, 1.0, 2.0, 0.8, 1.5])
-        tol = rng.choice([1e-3, 1e-6])
+        # the tolerance is the caller's: tight ones (far below sqrt(eps) x drop) show an exit test that
+        # is relative where the statement is absolute
+        tol = rng.choice([1e-3, 1e-6, 1e-6, 1e-9, 1e-10])
         ks = rng.choice([1e-5, 1e-3, 2e-2, 1.0, 0.0])
         kv = [ks * rng.choice([0.1, 1.0, 1.0, 3.0]) for _ in range(g.n)]
         for u in range(rng.randint(1, 3)):
